@@ -87,13 +87,9 @@ class U:
         c = self.cls(qualname)
         if member not in c.class_attrs:
             raise Unsupported(f"enum member {qualname}.{member} missing")
-        val = None
-        node = c.class_attrs[member]
-        import ast as _ast
+        from .interp import _enum_value
 
-        if isinstance(node, _ast.Constant):
-            val = node.value
-        return EnumVal(c, member, val)
+        return EnumVal(c, member, _enum_value(c, member))
 
     def enum_members(self, qualname):
         c = self.cls(qualname)
